@@ -82,6 +82,11 @@ struct Img {
 }
 
 fn images(world: &World, dev: usize, marks: &[Mark]) -> Vec<Img> {
+    images_where(world, dev, marks, &|_| true)
+}
+
+/// Like `images`, but only the states whose region satisfies `keep` are materialised.
+fn images_where(world: &World, dev: usize, marks: &[Mark], keep: &dyn Fn(&str) -> bool) -> Vec<Img> {
     let evs = world.events_of(dev);
     let mut out = Vec::new();
     let mut cur: Vec<u8> = Vec::new();
@@ -110,12 +115,17 @@ fn images(world: &World, dev: usize, marks: &[Mark]) -> Vec<Img> {
             "other"
         }
     };
-    out.push(Img { n_full: 0, cut: 0, data: vec![], hash: crate::prng::fnv(&[]), region: "nothing" });
+    if keep("nothing") {
+        out.push(Img { n_full: 0, cut: 0, data: vec![], hash: crate::prng::fnv(&[]), region: "nothing" });
+    }
     for (k, &ei) in evs.iter().enumerate() {
         let e = &world.log[ei];
         if e.kind == OpKind::Write && e.moved > 0 {
             let pos = e.pos as usize;
             for c in 1..e.moved as usize {
+                if !keep(region_of(ei, e.pos + c as u64, true)) {
+                    continue;
+                }
                 let mut d = cur.clone();
                 if d.len() < pos + c {
                     d.resize(pos + c, 0);
@@ -136,7 +146,9 @@ fn images(world: &World, dev: usize, marks: &[Mark]) -> Vec<Img> {
             OpKind::Flush => "after-flush",
             _ => region_of(ei, e.pos + e.moved as u64, false),
         };
-        out.push(Img { n_full: k + 1, cut: 0, data: cur.clone(), hash: h, region });
+        if keep(region) {
+            out.push(Img { n_full: k + 1, cut: 0, data: cur.clone(), hash: h, region });
+        }
     }
     out
 }
@@ -562,5 +574,54 @@ pub fn path_unit(unit: u64, ctx: &mut Ctx, ctl: &mut UnitCtl) {
         ctx.stats.reach("by-path-crash");
         execute_path(&scn, ctx);
         ctl.after_case(ctx, || Scenario::CrashPath(scn.clone()));
+    }
+}
+
+
+/// Torn header rewrites on files large enough for the length field to change in more than its
+/// last byte: many small records, crash states only inside the header rewrites of finalize/drop.
+pub fn tear_unit(seed: u64, ctx: &mut Ctx, ctl: &mut UnitCtl) {
+    let mut r = Rng::new(seed);
+    let ty = *r.pick(&[11, 11, 13, 15, 18, 31, 21, 23, 28, 1, 8]);
+    let n = r.usize(20, 420);
+    let shapes: Vec<ShapeSpec> = (0..n)
+        .map(|i| {
+            let mut s = if is_point(ty) { grid_spec(ty, 1, 1, i) } else { grid_spec(ty, 1, if is_polyline(ty) { 2 } else { r.usize(1, 2) }, i) };
+            tag_spec(&mut s, i);
+            s
+        })
+        .collect();
+    let mut calls: Vec<WCall> = Vec::new();
+    let mid = if r.chance(1, 2) { Some(r.usize(1, n)) } else { None };
+    for i in 0..n {
+        calls.push(WCall::W(i));
+        if mid == Some(i + 1) {
+            calls.push(WCall::Fin);
+        }
+    }
+    let w = WProg { shapes, others: vec![], calls, ending: Ending::Drop, with_shx: true, stack: if r.chance(1, 2) { StackCfg::Direct } else { StackCfg::Buf(8192) } };
+    let plan = Plan::default();
+    let Some(p) = prepare(&w, &plan) else {
+        ctx.fail("HARNESS", "invalid-scenario", "workload", "tear workload does not run cleanly".to_string());
+        ctl.after_case(ctx, || Scenario::Crash(CrashScn { w: w.clone(), wplan: plan.clone(), n_shp: 0, cut_shp: 0, n_shx: 0, cut_shx: 0, rbuf: 0 }));
+        return;
+    };
+    let wb = p.world.borrow();
+    ctx.stats.steps += wb.log.len() as u64;
+    let imgs = images_where(&wb, SHP, &p.run.marks, &|region| region.starts_with("header-rewrite") || region == "after-seek" || region == "after-flush");
+    let shx_full = wb.data(SHX).to_vec();
+    let n_shx = wb.events_of(SHX).len();
+    drop(wb);
+    let mk = |a: &Img, with_shx: bool| Scenario::Crash(CrashScn { w: w.clone(), wplan: plan.clone(), n_shp: a.n_full, cut_shp: a.cut, n_shx: if with_shx { n_shx } else { 0 }, cut_shx: 0, rbuf: 0 });
+    for a in &imgs {
+        if !ctl.before_case(|| mk(a, true)) {
+            continue;
+        }
+        ctx.stats.evaluations += 1;
+        ctx.stats.reach(&format!("tear:{}", a.region));
+        ctx.stats.fault(if a.cut > 0 { "crash:header-rewrite-mid-write" } else { "crash:header-rewrite-op-boundary" }, 1);
+        judge(ctx, &p, &a.data, a.n_full, &shx_full, 0, true, true);
+        ctx.stats.distinct.insert(a.hash ^ seed);
+        ctl.after_case(ctx, || mk(a, true));
     }
 }
